@@ -117,7 +117,7 @@ func buildServer(t hx.TB) (*layer4.Server, func()) {
 		{Match: sel('A', 1), Handle: []map[string]any{rx.H("echo")}},
 		{Match: sel('B', 3000), Handle: []map[string]any{rx.H("echo")}},
 		{Match: sel('C', 1500), Handle: []map[string]any{rx.H("tee", "branch", []map[string]any{rx.H("verif_term", "id", "BRANCH")}), rx.H("echo")}},
-		{Match: sel('D', 1), Handle: []map[string]any{rx.H("subroute", "matching_timeout", "2s", "routes", []rx.R{
+		{Match: sel('D', 1), Handle: []map[string]any{rx.H("subroute", "matching_timeout", "90s", "routes", []rx.R{
 			{Match: []map[string]any{rx.M("verif_need", &rx.Need{N: 2, Pos: 1, Val: 0xFF})}, Handle: []map[string]any{rx.H("verif_term", "id", "NEVER")}},
 			{Handle: []map[string]any{rx.H("verif_take", "id", "TAKE2", "k", 2), rx.H("echo")}}})}},
 		{Match: sel('E', 1), Handle: []map[string]any{rx.H("throttle", "total_read_bytes_per_second", 5e8, "total_read_burst_size", 1<<20, "read_bytes_per_second", 5e8, "read_burst_size", 1<<20), rx.H("echo")}},
@@ -129,7 +129,7 @@ func buildServer(t hx.TB) (*layer4.Server, func()) {
 	routes = append(routes, rx.R{Match: sel('L', 1), Handle: []map[string]any{
 		rx.H("proxy", "upstreams", []map[string]any{{"dial": []string{echo2.Addr().String(), sink.Addr().String()}}})}})
 	routes = append(routes,
-		rx.R{Match: sel('M', 1), Handle: []map[string]any{rx.H("subroute", "matching_timeout", "2s", "routes", []rx.R{
+		rx.R{Match: sel('M', 1), Handle: []map[string]any{rx.H("subroute", "matching_timeout", "90s", "routes", []rx.R{
 			{Match: []map[string]any{rx.M("verif_need", &rx.Need{N: 2, Pos: 1, Val: 0xFF})}, Handle: []map[string]any{rx.H("verif_term", "id", "NEVER2")}}})}},
 		rx.R{Match: sel('M', 1), Handle: []map[string]any{rx.H("echo")}})
 	routes = append(routes, rx.R{Match: []map[string]any{rx.M("http", []any{map[string]any{"host": []string{"victim.example"}}})}, Handle: []map[string]any{rx.H("echo")}})
@@ -147,7 +147,9 @@ func buildServer(t hx.TB) (*layer4.Server, func()) {
 	if err != nil {
 		t.Fatalf("tls ctx: %v", err)
 	}
-	srv, err := rx.Server(ctx, routes, 5*time.Second)
+	// (matching timeouts are far beyond anything a starved process needs: a connection dropped because its bytes were not
+	// looked at in time would read as cross-talk here, and timeouts are C05's subject)
+	srv, err := rx.Server(ctx, routes, 90*time.Second)
 	if err != nil {
 		t.Fatalf("provision: %v", err)
 	}
@@ -232,7 +234,7 @@ func runBatch(t hx.TB, srv *layer4.Server, ln net.Listener, plans []connPlan) {
 			}
 			defer c.Close()
 			results[i].from = time.Now()
-			_ = c.SetDeadline(time.Now().Add(20 * time.Second))
+			_ = c.SetDeadline(time.Now().Add(120 * time.Second))
 			if w := workloads[cp.W]; w.first == 1 || w.first == 2 || w.first == 5 || w.first == 6 {
 				// a TLS client: the plaintext stream goes through the handshake with the route's server name
 				tc := tls.Client(c, rx.ClientTLS(tlsNames[w.first], nil))
